@@ -8,6 +8,7 @@ import (
 	"fmt"
 	"go/constant"
 	"go/types"
+	"math/big"
 	"strings"
 
 	"golang.org/x/tools/go/ssa"
@@ -129,7 +130,9 @@ func (e *Exec) libModel(st *State, callee *ssa.Function, cc *ssa.CallCommon, arg
 		n := e.sc.fresh("wn", "Int")
 		errv := e.freshVal(st, "werr", types.Universe.Lookup("error").Type())
 		e.assume(st, and(fmt.Sprintf("(<= 0 %s)", n), fmt.Sprintf("(<= %s %s)", n, total), imp(fmt.Sprintf("(< %s %s)", n, total), fmt.Sprintf("(not (= (i-tag %s) 0))", errv.S))))
-		// the receiver is consumed (modified in place)
+		// the receiver is consumed (modified in place): its slice header, and the elements of the array
+		// behind it (written frames are set to nil, a cut frame is advanced to its unwritten rest)
+		e.memSet(st, k, srt, fmt.Sprintf("(store %s (s-base %s) %s)", m, bufs.S, e.sc.fresh("consumedArr", fmt.Sprintf("(Array %s %s)", e.sc.idx(), e.sc.sortOf(types.NewSlice(tByte))))))
 		e.store(st, args[0], e.freshVal(st, "consumed", bufs.T))
 		set(Val{T: resT, Tup: []Val{{T: types.Typ[types.Int64], S: n}, errv}})
 		return true, true, nil
@@ -541,6 +544,34 @@ func (e *Exec) libModel(st *State, callee *ssa.Function, cc *ssa.CallCommon, arg
 			e.assume(st, and(e.le(e.sc.idxLit(0), t), e.lt(t, e.sc.idxLit(1000000000))))
 			set(Val{T: resT, S: t})
 		}
+		return true, true, nil
+	case "time.Unix":
+		// time.Unix(sec, nsec): the instant sec seconds + nsec nanoseconds after the epoch; nsec outside
+		// [0, 1e9) is carried into the seconds exactly as the library does (floored quotient and remainder)
+		used()
+		r := e.freshVal(st, "time", resT)
+		e.timeFuns(resT)
+		var q, rem, zeroSec, zero string
+		if e.mode == ModeBV {
+			giga := bvLit(big.NewInt(1000000000), 64)
+			zero = bvLit(big.NewInt(0), 64)
+			q0 := fmt.Sprintf("(bvsdiv %s %s)", args[1].S, giga)
+			r0 := fmt.Sprintf("(bvsrem %s %s)", args[1].S, giga)
+			neg := fmt.Sprintf("(bvslt %s %s)", r0, zero)
+			q = e.sc.define("tq", e.sc.idx(), ite(neg, fmt.Sprintf("(bvsub %s %s)", q0, bvLit(big.NewInt(1), 64)), q0))
+			rem = e.sc.define("tr", e.sc.idx(), ite(neg, fmt.Sprintf("(bvadd %s %s)", r0, giga), r0))
+			zeroSec = bvLit(big.NewInt(-62135596800), 64)
+		} else {
+			zero = "0"
+			q = fmt.Sprintf("(div %s 1000000000)", args[1].S)
+			rem = fmt.Sprintf("(mod %s 1000000000)", args[1].S)
+			zeroSec = "(- 62135596800)"
+		}
+		unix := e.add(args[0].S, q)
+		e.assume(st, eq(fmt.Sprintf("(time.unix %s)", r.S), unix))
+		e.assume(st, eq(fmt.Sprintf("(time.nsec %s)", r.S), rem))
+		e.assume(st, eq(fmt.Sprintf("(time.iszero %s)", r.S), and(eq(unix, zeroSec), eq(rem, zero))))
+		set(r)
 		return true, true, nil
 	case "time.Now", "(time.Time).Add", "(time.Time).Truncate", "time.Since", "(time.Time).Sub":
 		used()
